@@ -337,6 +337,40 @@ impl<'a, 'tcx> BV<'a, 'tcx> {
                         }
                         out
                     }
+                    ty::Ref(_, inner, _)
+                        if matches!(inner.kind(), ty::Adt(d, _) if d.is_enum() && d.variants().iter().all(|v| v.fields.is_empty())) =>
+                    {
+                        // `&Enum::Variant` (a promoted temporary): the variant built in the promoted body
+                        let mut out = format!("const<{}>", ty_short(self.tcx, ty));
+                        if let mir::Const::Unevaluated(uv, _) = c.const_ {
+                            if let Some(pidx) = uv.promoted {
+                                if uv.def.is_local() {
+                                    let promoted = self.tcx.promoted_mir(uv.def);
+                                    if let Some(body) = promoted.get(pidx) {
+                                        for bb in body.basic_blocks.iter() {
+                                            for st in &bb.statements {
+                                                if let mir::StatementKind::Assign(b) = &st.kind {
+                                                    if let Rvalue::Aggregate(k, ops) = &b.1 {
+                                                        if let AggregateKind::Adt(did, vidx, _, _, _) = &**k {
+                                                            let adt = self.tcx.adt_def(*did);
+                                                            if ops.is_empty() && adt.is_enum() {
+                                                                out = format!(
+                                                                    "variant:{}::{}",
+                                                                    self.tcx.item_name(*did),
+                                                                    adt.variant(*vidx).name
+                                                                );
+                                                            }
+                                                        }
+                                                    }
+                                                }
+                                            }
+                                        }
+                                    }
+                                }
+                            }
+                        }
+                        out
+                    }
                     _ => format!("const<{}>", ty_short(self.tcx, ty)),
                 }
             }
